@@ -274,6 +274,7 @@ func (w *World) verifyItem(it *Item, timeoutMs int) *FuncResult {
 			e.verifyFunc(it)
 		}
 	}()
+	e.pending.Wait()
 	res.Obligations = e.obs
 	res.Trusted = sortedKeys(e.trusted)
 	res.Inlined = sortedKeys(e.inlined)
@@ -301,6 +302,7 @@ func (e *Env) verifyFunc(it *Item) {
 	next0 := e.fresh("next0", sInt)
 	e.assume(sx("<", "0", next0))
 	st.next = next0
+	e.next0 = next0
 	// parameters
 	var args []Value
 	vars := map[string]Value{}
@@ -309,6 +311,10 @@ func (e *Env) verifyFunc(it *Item) {
 		for j, l := range e.leavesOf(p.Type()) {
 			if l.Sort == sInt && (isRefType(l.Typ) || strings.HasSuffix(l.Path, "#arr")) {
 				e.assume(sx("<", e.flatten(v)[j], next0))
+			}
+			if l.Sort == sInt && isIfaceType(l.Typ) {
+				e.declAtEntry()
+				e.assume(sx("atentry", e.flatten(v)[j]))
 			}
 		}
 		if i == 0 && fn.Signature.Recv() != nil {
@@ -496,7 +502,7 @@ func (e *Env) frameCheck(it *Item, entryCtx *SpecCtx, entry, out *State, next0 s
 	for _, n := range names {
 		t := out.heap[n]
 		init := q(n + "@0")
-		if t == init || allowAll[n] {
+		if t == init || allowAll[n] || strings.HasPrefix(n, "T!") {
 			continue
 		}
 		r := "|$r|"
